@@ -101,7 +101,7 @@ thread_local! {
     static FILL_STYLE: std::cell::Cell<u8> = const { std::cell::Cell::new(0) };
 }
 
-pub const FILL_STYLES: [u8; 20] = [0, 1, 2, 3, 4, 5, 6, 7, 8, 9, 10, 11, 12, 13, 14, 15, 16, 17, 18, 19];
+pub const FILL_STYLES: [u8; 22] = [0, 1, 2, 3, 4, 5, 6, 7, 8, 9, 10, 11, 12, 13, 14, 15, 16, 17, 18, 19, 20, 21];
 
 /// a DER TLV of exactly `total` bytes (total >= 2): tag, definite length (minimal where a minimal form of that
 /// total size exists), content from `body`
@@ -227,6 +227,22 @@ impl W {
     /// with four / nine length octets, indefinite length, the reserved length form.
     pub fn fill(&mut self, n: usize, seed: u8) -> &mut W {
         let style = FILL_STYLE.with(|s| s.get());
+        if style == 20 || style == 21 {
+            // short-form DER SEQUENCE whose one-byte length overstates (20: +3) or understates (21: -3) what the field holds
+            let mut v: Vec<u8> = Vec::with_capacity(n);
+            let body = n.saturating_sub(2);
+            let l = if style == 20 { (body + 3).min(0x7f) } else { body.saturating_sub(3).min(0x7f) };
+            for b in [0x30u8, l as u8] {
+                if v.len() < n {
+                    v.push(b);
+                }
+            }
+            while v.len() < n {
+                v.push(seed.wrapping_add((v.len() % 251) as u8) | 1);
+            }
+            self.buf.extend_from_slice(&v);
+            return self;
+        }
         if (16..=19).contains(&style) {
             // DER SEQUENCE headers with unusual length forms: 16 = four length octets (30 84 00 00 hi lo), 17 = nine length
             // octets (30 89 ..), 18 = indefinite length (30 80 .. 00 00), 19 = the reserved form 30 ff followed by 127 octets
